@@ -64,6 +64,15 @@ func genC17(seed uint64, tier string) *Plan {
 				sub.S2 = "err" // the consumer fails instead of stopping cleanly
 			}
 		}
+		if sub.N2 == 0 && r.Bool(0.15) {
+			sub.S2 = "slow" // takes 1 ms per row: the shared scan lasts
+		}
+		if r.Bool(0.15) {
+			// a deadline of its own: already over, or over while the scan runs
+			// (such queries only perturb the others; their own outcome
+			// legitimately depends on how long the shared scan takes)
+			sub.Dt = PickOne(r, []int64{1, int64(500 * time.Microsecond), int64(2 * time.Millisecond), int64(10 * time.Millisecond)})
+		}
 		conc.Sub = append(conc.Sub, sub)
 	}
 	conc.Sub = append(conc.Sub, late...)
@@ -123,10 +132,18 @@ func execC17(e *Env, p *Plan) error {
 			}
 			consumer := func(j int) QOpts {
 				stop := op.Sub[j].N2
-				if op.Sub[j].S2 == "err" {
-					return QOpts{Ctx: context.Background(), ErrAt: int(stop)}
+				ctx := context.Background()
+				if d := op.Sub[j].Dt; d > 0 {
+					ctx, _ = context.WithTimeout(ctx, time.Duration(d))
 				}
-				return QOpts{Ctx: context.Background(), OnRow: func(i int, row *QRow) bool {
+				if op.Sub[j].S2 == "err" {
+					return QOpts{Ctx: ctx, ErrAt: int(stop)}
+				}
+				slow := op.Sub[j].S2 == "slow"
+				return QOpts{Ctx: ctx, OnRow: func(i int, row *QRow) bool {
+					if slow {
+						time.Sleep(time.Millisecond)
+					}
 					if stop > 0 && int64(i+1) >= stop {
 						return false
 					}
@@ -153,6 +170,10 @@ func execC17(e *Env, p *Plan) error {
 			nonEmpty := 0
 			for j := range conc {
 				a, b := soloRes[j], concRes[j]
+				if op.Sub[j].Dt > 0 {
+					e.Count("probe.deadline-query-in-batch")
+					continue
+				}
 				if a.Panicked || b.Panicked {
 					e.Count("q.panic")
 					continue
